@@ -122,7 +122,66 @@ def evaluate(d, tier, seeds, all_checks, scratch=False):
     return out
 
 
+def fmt_runs(runs):
+    if not runs:
+        return '-'
+    exits = {x['exit'] for x in runs}
+    mons = sorted({m for x in runs for m in x['monitors']})
+    if exits == {1}:
+        return 'caught: ' + ', '.join(mons)
+    if exits == {0}:
+        return 'MISSED'
+    return f'exits {sorted(exits)}: ' + ', '.join(mons)
+
+
+def summary():
+    """seeded/README.md: one row per independently written faulty change."""
+    import glob
+    notes_p = os.path.join(HERE, 'seeded', 'NOTES.json')
+    notes = json.load(open(notes_p)) if os.path.exists(notes_p) else {}
+    rows = []
+    for d in sorted(glob.glob(os.path.join(HERE, 'seeded', 'C*'))):
+        if not os.path.isdir(d):
+            continue
+        sid = os.path.basename(d)
+        meta = json.load(open(os.path.join(d, 'meta.json')))
+        rp = os.path.join(d, 'result.json')
+        res = json.load(open(rp)) if os.path.exists(rp) else {}
+        pid = meta['property']
+        conf = res.get('verify', {}).get('confirmed')
+        init = res.get('baseline') or res.get('initial', {})
+        fin = res.get('eval', {}).get('quick', {}) or \
+            res.get('eval', {}).get('quick-scratch', {})
+        rows.append((sid, pid, str(meta.get('summary', ''))[:230].replace(
+            '\n', ' ').replace('|', '/'), str(meta.get('needs_to_manifest',
+            ''))[:200].replace('\n', ' ').replace('|', '/'),
+            'yes' if conf else str(conf), fmt_runs(init.get(pid)),
+            fmt_runs(fin.get(pid)), notes.get(sid, '')))
+    out = ['# Independently written faulty changes (seeded)', '',
+        'Each directory holds `patch.diff` (applies to /repo HEAD), `demo.py` '
+        '(exits 1 with the change, 0 without), `meta.json` (what it breaks, '
+        'what it needs to manifest, written by its author) and `result.json` '
+        '(our confirmation in a scratch worktree and the check results). '
+        'Authors were sub-agents that saw only the property text and a scratch '
+        'worktree of /repo, nothing from /verif.', '',
+        '"first evaluation" = the property\'s quick check (seeds 0, 1) as it '
+        'was before the change was looked at; "now" = the committed check.',
+        '', '| id | property | change | needs | confirmed | first evaluation |'
+        ' now | strengthening |', '|---|---|---|---|---|---|---|---|']
+    for r in rows:
+        out.append('| ' + ' | '.join(r) + ' |')
+    nm = sum(1 for r in rows if r[5] == 'MISSED')
+    nn = sum(1 for r in rows if r[6].startswith('caught'))
+    out += ['', f'{len(rows)} changes; {nm} missed at first evaluation; '
+        f'{nn} caught by the committed checks.']
+    with open(os.path.join(HERE, 'seeded', 'README.md'), 'w') as f:
+        f.write('\n'.join(out) + '\n')
+    print('\n'.join(out[-3:]))
+
+
 def main():
+    if len(sys.argv) > 1 and sys.argv[1] == 'summary':
+        return summary()
     ap = argparse.ArgumentParser()
     ap.add_argument('cmd', choices=['verify', 'eval'])
     ap.add_argument('dir')
